@@ -433,7 +433,7 @@ def explore(ctx, exe, pool, repaired, stats, on_result):
     # deviation-bounded exhaustive schedules of the small scope
     smalls = small_scenarios()
     depth = 1 if quick else 2
-    budget2 = 0 if quick else 14000          # per scenario cap of the second wave (sampled beyond)
+    budget2 = 0 if quick else 6000          # per scenario cap of the second wave (sampled beyond)
     wave = []
     for scn in smalls:
         submit(scn, [("np", 1, 6000, ())], want_enabled=True)
@@ -480,11 +480,11 @@ def explore(ctx, exe, pool, repaired, stats, on_result):
         Scn([["s0:11:5", "s1:12:7", "s2:13:1", "j0", "j1", "j2"], ["s3:21:6", "s4:22:1", "j3", "j4"]], q=1, tick=1100, sp=1, mn=1, mx=4),
         Scn([["s0:11:5", "s1:12:7", "s2:13:1", "j0", "j1", "j2"], ["s3:21:6", "s4:22:1", "j3", "j4"], ["s5:31:1", "r5"]], q=4, tick=700, sp=2, mx=3),
     ]
-    nstress = 400 if quick else 6000
+    nstress = 400 if quick else 3000
     for scn in stress:
         submit(scn, [("rand", rng.randrange(1, 10 ** 9), 6000, ()) for _ in range(nstress)])
-    nscn = 250 if quick else 3000
-    per = 12 if quick else 30
+    nscn = 250 if quick else 1500
+    per = 12 if quick else 20
     for _ in range(nscn):
         scn = random_scenario(rng)
         submit(scn, [("rand", rng.randrange(1, 10 ** 9), 6000, ()) for _ in range(per)] + [("np", 1, 6000, ())], chunk=per + 1)
@@ -595,7 +595,7 @@ def check(ctx):
     ctx.cov["exhaustive"] = False
     ctx.cov["exhaustive_scope"] = (f"{len(small_scenarios())} scenarios (<= 2 clients x <= 2 calls, queue sizes 1/2/4, lazy pool, retire clock): every schedule with "
                                    f"<= {stats['exhaustive_depth']} deviation(s) from the non-preemptive default at any scheduling point"
-                                   f"{' (second wave sampled to 14000 per scenario)' if stats['exhaustive_sampled'] else ''}: {stats['exhaustive_runs']} runs")
+                                   f"{' (second wave sampled to 6000 per scenario)' if stats['exhaustive_sampled'] else ''}: {stats['exhaustive_runs']} runs")
     ctx.cov["rule"] = ("corpus replays + deviation-bounded exhaustive schedules of the small scope + random schedules (xorshift seeds from VERIF_SEED) of 4 stress scenarios "
                        "and of generated scenarios (1-3 clients, 1-3 futures each, start/join/result/abort/query/destroy, queue 1..8, min 0..2, max 3..4, lazy pool, clock ticks, "
                        "spurious wake-ups); evaluations = scheduler steps replayed on the model; distinct_nontrivial = distinct (scenario, step count, final summary, op histogram) of runs with >= 20 steps")
@@ -621,7 +621,10 @@ def check(ctx):
         break
 
 
-OPEN_STATEMENTS = []
+OPEN_STATEMENTS = [
+    "join_eventually: under weak fairness every join of the repaired full model eventually returns (stated in Props.lean, comment block OPEN)",
+    "no_stuck: global deadlock freedom of the repaired full model (proved parts: no_stuck_worker_side, no_stuck_producer_side if present, Signal progress lemmas; missing: spawn/retire arithmetic, shutdown accounting, join side)",
+]
 
 
 def replay(ctx, path):
